@@ -24,7 +24,7 @@ RX_WEIGHTS = {
     "lc_h": 4, "lc_h+r": 4, "lc_c": 1, "j3pi_h": 3, "j3pi_h+r": 3, "ksp_h": 2, "ksp_h+r": 2,
     "ppg_h": 2, "ppg_h+r": 2, "ppg_c": 1, "psi4_h": 1, "d3pi_h": 2, "d3pi_h+r": 2,
 }
-DYN = ["non_dynamic", "bw", "bw_ff", "bw_analytic", "bw_swave", "probeA", "probeB", "non_dynamic_ff"]
+DYN = ["non_dynamic", "bw", "bw", "bw_ff", "bw_analytic", "bw_swave", "bw_ffonly", "bw_edw", "probeA", "probeB", "non_dynamic_ff"]
 ALIGN = ["none", "axis", "dpd1", "dpd2", "dpd3"]
 
 
